@@ -424,6 +424,25 @@ func treeGen(seed int64, n int, args []string, out *json.Encoder) {
 					c.H = append(c.H, hEntry{M: m2, R: rt, Ok: true, Hdr: []hdrC{}, Call: call, Ck: "any"})
 					rgs = append(rgs, rg)
 				}
+			} else if kind == "hdr" && rng.Intn(8) == 0 && len(rt.Segs) >= 2 && rt.Segs[len(rt.Segs)-1].K == "S" && !rt.Segs[len(rt.Segs)-1].Opt {
+				// the optional variant of this route was registered for ONE of the methods just before a two-method call:
+				// whether a leaf may be looked up in the static table is a per-method question
+				opt := rt
+				opt.Segs = append([]aSeg{}, rt.Segs...)
+				opt.Segs[len(opt.Segs)-1].Opt = true
+				c.H[len(c.H)-1] = hEntry{M: "POST", R: opt, Ok: true, Hdr: []hdrC{}, Call: call}
+				call++
+				if rng.Intn(2) == 0 {
+					c.H = append(c.H, hEntry{M: "GET", R: rt, Ok: true, Hdr: []hdrC{}, Call: call, Ck: "routes"},
+						hEntry{M: "POST", R: rt, Ok: true, Hdr: []hdrC{}, Call: call, Ck: "routes"})
+					rgs = append(rgs, rg, rg)
+				} else {
+					// ... or just before ONE Any() call (a single addRoute over all nine methods)
+					for _, m2 := range nineMethods {
+						c.H = append(c.H, hEntry{M: m2, R: rt, Ok: true, Hdr: []hdrC{}, Call: call, Ck: "any"})
+						rgs = append(rgs, rg)
+					}
+				}
 			} else if kind == "hdr" && rng.Intn(8) == 0 && m == "GET" {
 				// Get() under AutoHead: GET and HEAD through one call, one handle
 				c.H[len(c.H)-1].Ck = "autohead"
